@@ -1275,7 +1275,10 @@ class DiameterMessage:
                                        "DiameterMessage subclass object to be "\
                                        "converted into DiameterMessage object")
         
-        return cls(header=msg.header,
+        header = msg.header.copy()
+        header.length = DIAMETER_HEADER_LENGTH
+
+        return cls(header=header,
                    avps=msg.avps)
 
 
